@@ -3,7 +3,7 @@
 use crate::ctx::{hex_short, lc, Case, Ctx, Tier};
 use crate::gen;
 use crate::oracle::classify;
-use crate::refenc::{self, W};
+use crate::refenc::{self, AHs, W};
 use crate::visit::veq;
 use serde_json::json;
 use tls_parser::*;
@@ -389,6 +389,90 @@ pub fn run(ctx: &mut Ctx) {
         }
         if ctx.wants_sample() {
             ctx.sample(json!({"family": "volume", "parser": name, "buffer_len": buf.len(), "records": ln, "tail": tail_kind}));
+        }
+    });
+
+    // ------------------------------------------------ earlier records that NEGOTIATE something (hellos carrying
+    // max_fragment_length with every code, record_size_limit, heartbeat, supported_versions, ...) followed by
+    // records of every size class: what a previous record says never changes how the following ones are framed
+    ctx.floor("after-negotiation.cases", 512);
+    ctx.sweep("after-negotiation", 256, |ctx, idx| {
+        let mut r = crate::rng::Rng::new(idx ^ 0x4E60);
+        let code = idx as u8;
+        let exts = |r: &mut crate::rng::Rng| -> Vec<u8> {
+            let mut l = vec![refenc::AExt::MaxFragmentLength(code)];
+            l.push(refenc::AExt::RecordSizeLimit(*r.pick(&[64u16, 512, 1024, 16384, 16385, (code as u16) << 6])));
+            if r.bool() {
+                l.push(refenc::AExt::Heartbeat(1 + code % 2));
+            }
+            if r.bool() {
+                l.push(refenc::AExt::SupportedVersionsServer(*r.pick(&[0x0304u16, 0xfefc, 0x0303])));
+            }
+            if r.bool() {
+                l.reverse();
+            }
+            refenc::exts_bytes(&l)
+        };
+        for dtls in [false, true] {
+            let sh = refenc::ASh { version: if dtls { 0xfefd } else { 0x0303 }, random: r.bytes(32), sid: vec![], cipher: 0xc02f, comp: 0, ext: Some(exts(&mut r)) };
+            let ch = refenc::ACh { version: if dtls { 0xfefd } else { 0x0303 }, random: r.bytes(32), sid: vec![], ciphers: vec![0xc02f], comp: vec![0], ext: Some(exts(&mut r)) };
+            let mut buf: Vec<u8> = Vec::new();
+            let mut n = 0usize;
+            // hello records
+            if dtls {
+                for (k, body) in [refenc::ADtlsBody::ClientHello(refenc::ADch { version: ch.version, random: ch.random.clone(), sid: vec![], cookie: vec![], ciphers: ch.ciphers.clone(), comp: ch.comp.clone(), ext: ch.ext.clone() }), refenc::ADtlsBody::ServerHello(sh.clone())].into_iter().enumerate() {
+                    let m = refenc::ADtlsHs::whole(k as u16, body);
+                    let mut w = W::new();
+                    refenc::ADtlsMsg::Hs(m).enc(&mut w);
+                    buf.extend(refenc::dtls_record(&gen::dtls_hdr(&mut r, 0x16), &w.b));
+                    n += 1;
+                }
+            } else {
+                for m in [AHs::ClientHello(ch.clone()), AHs::ServerHello(sh.clone())] {
+                    buf.extend(refenc::record(0x16, 0x0303, &m.to_bytes()));
+                    n += 1;
+                }
+            }
+            // followed by records of every size class (one handshake fragment / opaque Finished per record)
+            for size in [100usize, 512, 513, 1024, 1025, 2048, 2049, 4096, 4097, 16384, 16640] {
+                if dtls {
+                    let data = r.bytes(size - 12);
+                    let m = refenc::ADtlsHs { length: 0x01_0000, message_seq: 9, fragment_offset: 0, body: refenc::ADtlsBody::Fragment { ty: 11, data } };
+                    let mut w = W::new();
+                    refenc::ADtlsMsg::Hs(m).enc(&mut w);
+                    buf.extend(refenc::dtls_record(&gen::dtls_hdr(&mut r, 0x16), &w.b));
+                } else {
+                    let mut p = vec![20u8, 0, ((size - 4) >> 8) as u8, (size - 4) as u8];
+                    p.extend(r.bytes(size - 4));
+                    buf.extend(refenc::record(0x16, 0x0303, &p));
+                }
+                n += 1;
+            }
+            ctx.eval();
+            ctx.count("after-negotiation.cases");
+            ctx.shape(&("after-negotiation", dtls, code >> 3));
+            let got = if dtls { parse_dtls_plaintext_records(&buf).ok().map(|(rem, v)| (v.len(), rem.len())) } else { tls_parser_many(&buf).ok().map(|(rem, v)| (v.len(), rem.len())) };
+            // reference: the single-record parser applied repeatedly
+            let (mut off, mut k) = (0usize, 0usize);
+            while off < buf.len() {
+                let step = if dtls { parse_dtls_plaintext_record(&buf[off..]).map(|(rem, _)| rem.len()) } else { parse_tls_plaintext(&buf[off..]).map(|(rem, _)| rem.len()) };
+                match step {
+                    Ok(rl) => {
+                        off = buf.len() - rl;
+                        k += 1;
+                    }
+                    Err(_) => break,
+                }
+            }
+            if k != n {
+                ctx.unjudged("after-negotiation: single-record loop did not accept the constructed records");
+            }
+            if got != Some((k, buf.len() - off)) {
+                ctx.violation(
+                    format!("c16:{}:records-or-remainder-differ", if dtls { "parse_dtls_plaintext_records" } else { "tls_parser_many" }),
+                    json!({"family": "after-negotiation", "max_fragment_length_code": code, "loop_records": k, "loop_consumed": off, "many": format!("{:?}", got), "buffer_len": buf.len()}),
+                );
+            }
         }
     });
 
